@@ -153,6 +153,12 @@ R15 = {
  "C12": " Decoder layout = RFC layout for every field: no bit of a wire field is dropped on decode (a field narrower than its slot re-encodes zeros there).",
  "C14": " No method of the eap package with a struct value receiver assigns to a field of it (a setter on a copy).",
 }
+# rules added in round 16 (failure paths), run under every property over that property's own code
+R16 = " Failure reporting in the code this property's rules analyse and everything it calls: no pkg/errors wrapper is applied to an error that is nil at that point; the error of every call to a module function is tested and its failing edge does not rejoin the success path; after io.ReadFull a success return is reachable only behind a test that the read was complete."
+R16X = {
+ "C03": " A refused SetAttr leaves the attribute map untouched.",
+ "C14": " A refused SetAttr leaves the attribute map untouched.",
+}
 THOROUGH = " Thorough tier: additionally replays every seeded faulty variant of this property (seeded/<id>-*) on a scratch copy of the current tree and requires it to be reported (exit 2 'SENSITIVITY-LOST' otherwise)"
 BCE = "; and cross-checks the prover's site enumeration against the compiler's unproven bounds checks (-d=ssa/check_bce)"
 
@@ -172,7 +178,7 @@ def main():
             "evidence_file": f"evidence/{pid}.json",
             "replay_cmd_template": "./bin/ikelint -explain {path}",
             "engine": "ikelint",
-            "level_claimed": {"category": c["cat"], "text": c["text"] + EXTRA.get(pid, "") + R14.get(pid, "") + R15.get(pid, ""), "design_ref": c["ref"] + ", 8"},
+            "level_claimed": {"category": c["cat"], "text": c["text"] + EXTRA.get(pid, "") + R14.get(pid, "") + R15.get(pid, "") + R16 + R16X.get(pid, ""), "design_ref": c["ref"] + ", 8"},
             "level_note": c["note"] + THOROUGH + (BCE if pid in ("C02", "C04", "C10") else "") + ".",
             "technique": c["tech"],
         })
